@@ -157,6 +157,8 @@ type GenOptions struct {
 	QuiesceEvery int
 	NoTLS        bool
 	NoOps        bool
+	// TLSSecrets overrides the secretName choices of spec.tls entries
+	TLSSecrets []string
 	// OwnHostAlways (sparse worlds): every rule and tls entry of an ingress uses the ingress' own host
 	OwnHostAlways bool
 	OnlyNS        string
@@ -703,7 +705,11 @@ func (g *gen) genIngress(ns, name string, created int, cur *networking.Ingress) 
 	if !g.opt.NoTLS && g.chance(1, 2) {
 		nt := 1 + g.pick(2)
 		for i := 0; i < nt; i++ {
-			t := tlsSpec{Secret: pickStr(g, []string{"tls1", "tls2", "tls1", "", "bad", "missing", "b/tls1"})}
+			choices := []string{"tls1", "tls2", "tls1", "", "bad", "missing", "b/tls1"}
+			if len(g.opt.TLSSecrets) > 0 {
+				choices = g.opt.TLSSecrets
+			}
+			t := tlsSpec{Secret: pickStr(g, choices)}
 			nh := 1 + g.pick(2)
 			for j := 0; j < nh; j++ {
 				h := pickStr(g, g.opt.Hosts)
